@@ -93,7 +93,8 @@ func refGCM(secret, salt []byte) (cipher.AEAD, []byte) {
 }
 
 func secretGen(t *rapid.T) []byte {
-	n := rapid.OneOf(rapid.IntRange(0, 40), rapid.SampledFrom([]int{0, 1, 16, 32})).Draw(t, "slen")
+	// lengths around the MD5 block boundaries of the key derivation input (16-byte digest + secret + 8-byte salt)
+	n := rapid.OneOf(rapid.IntRange(0, 40), rapid.IntRange(0, 140), rapid.SampledFrom([]int{0, 1, 16, 31, 32, 39, 40, 41, 47, 48, 49, 55, 56, 57, 63, 64, 65, 103, 104, 119, 120, 128})).Draw(t, "slen")
 	return g.BytesLen(n).Draw(t, "secret")
 }
 
@@ -667,7 +668,7 @@ func FuzzDecrypt(f *testing.F) {
 
 func init() {
 	pb.Register("cbc_roundtrip_format", pb.Options{Base: 4000, Required: []string{"block-aligned plaintext", "empty secret"},
-		Rule: "plaintext 0..200 bytes, secret 0..40 bytes (string and []byte forms), drawn salt; oracles: independent EVP_BytesToKey(MD5,1)+AES-256-CBC+PKCS#7 decoder recovers p from the library's output, exact ciphertext equality under the library's salt, Decrypt(Encrypt(p))=p, library decrypts an independently built message; non-trivial = non-empty plaintext"},
+		Rule: "plaintext 0..200 bytes, secret 0..140 bytes (biased to the MD5 block boundaries of the derivation input) (string and []byte forms), drawn salt; oracles: independent EVP_BytesToKey(MD5,1)+AES-256-CBC+PKCS#7 decoder recovers p from the library's output, exact ciphertext equality under the library's salt, Decrypt(Encrypt(p))=p, library decrypts an independently built message; non-trivial = non-empty plaintext"},
 		genCBC, runCBC)
 	pb.Register("cbc_garbage", pb.Options{Base: 8000, Required: []string{"garbage passes the header check", "truncated message", "accepted by both"},
 		Rule: "arbitrary text (base64/hex-looking/any), valid header + garbage body, every truncation length and single-character changes of valid messages, base64 of arbitrary raw bytes; oracle: Decrypt errors <=> the reference decoder rejects, equal plaintext otherwise, never a panic; non-trivial = non-empty input"},
